@@ -572,8 +572,28 @@ async fn wait_for_pipeline_processes_and_update_status(
     let mut stopped_children = vec![];
     let mut last_failure_exit_code: Option<ExecutionExitCode> = None;
 
+    // A grouping, looping or conditional command on its own (`{ a | b; }`, `if`, `for`, ...) is
+    // not a pipeline as far as PIPESTATUS is concerned: it leaves the statuses of the last
+    // pipeline run inside it.
+    let updates_pipeline_statuses = !(pipeline.seq.len() == 1
+        && matches!(
+            &pipeline.seq[0],
+            ast::Command::Compound(
+                ast::CompoundCommand::BraceGroup(_)
+                    | ast::CompoundCommand::ForClause(_)
+                    | ast::CompoundCommand::ArithmeticForClause(_)
+                    | ast::CompoundCommand::CaseClause(_)
+                    | ast::CompoundCommand::IfClause(_)
+                    | ast::CompoundCommand::WhileClause(_)
+                    | ast::CompoundCommand::UntilClause(_),
+                _
+            )
+        ));
+
     // Clear our the pipeline status so we can start filling it out.
-    shell.last_pipeline_statuses_mut().clear();
+    if updates_pipeline_statuses {
+        shell.last_pipeline_statuses_mut().clear();
+    }
 
     let pipeline_len = pipeline.seq.len();
     let mut index = 0;
@@ -598,9 +618,11 @@ async fn wait_for_pipeline_processes_and_update_status(
                     ExecutionResult::from(current_result.exit_code)
                 };
                 shell.set_last_exit_status(result.exit_code.into());
-                shell
-                    .last_pipeline_statuses_mut()
-                    .push(result.exit_code.into());
+                if updates_pipeline_statuses {
+                    shell
+                        .last_pipeline_statuses_mut()
+                        .push(result.exit_code.into());
+                }
 
                 // Track the last failure for pipefail option
                 if !result.is_success() {
@@ -610,9 +632,11 @@ async fn wait_for_pipeline_processes_and_update_status(
             ExecutionWaitResult::Stopped(child) => {
                 result = ExecutionResult::stopped();
                 shell.set_last_exit_status(result.exit_code.into());
-                shell
-                    .last_pipeline_statuses_mut()
-                    .push(result.exit_code.into());
+                if updates_pipeline_statuses {
+                    shell
+                        .last_pipeline_statuses_mut()
+                        .push(result.exit_code.into());
+                }
 
                 stopped_children.push(jobs::JobTask::External(child));
             }
